@@ -1,12 +1,13 @@
 /-
-  Model of pgdump/checksum.go (with fixes 04/07 of /verif/fixes/block applied).
+  Model of pgdump/checksum.go (with fixes 04/07/08/09 of /verif/fixes/block applied).
 
   The accounting functions take the checksum function `ck : Bytes → Nat → Nat` as a parameter
   (page bytes, block number ↦ 16-bit checksum); `computePageChecksum` / `pgChecksumBlock` are the
   tool's own two functions, modelled exactly with uint32 wrap-around arithmetic.
 
-  File system = parameter: `DataDirFS` — the entries of `<dataDir>/base` and of each database
-  directory, in any order (os.ReadDir sorts by name: `sortByName`); `ReadControlFile` (area
+  File system = parameter: `DataDirFS` — the entries of `<dataDir>/global`, of `<dataDir>/base` and of each
+  database directory, and of `<dataDir>/pg_tblspc/<spcoid>/PG_…/<dboid>`, in any order (os.ReadDir sorts by
+  name: `sortByName`); `ReadControlFile` (area
   control) enters only through `checksumsEnabled`.
 -/
 import PgVerif.Model.Block
@@ -117,9 +118,25 @@ inductive BaseEntry where
   | dir (entries : List (Bytes × DbEntry))
 deriving Repr, Inhabited
 
+/-- an entry of `pg_tblspc/<spcoid>/`: a plain file (or a symbolic link: `DirEntry.IsDir()` is false for it) or a
+real directory with its entries (the database directories of one server version) -/
+inductive VerEntry where
+  | file
+  | dir (dbs : List (Bytes × BaseEntry))
+deriving Repr, Inhabited
+
+/-- an entry of `pg_tblspc/`: something `os.ReadDir` cannot list (a plain file, a dangling link) or a directory /
+symbolic link to a directory with its entries -/
+inductive SpcEntry where
+  | file
+  | dir (vers : List (Bytes × VerEntry))
+deriving Repr, Inhabited
+
 structure DataDirFS where
   checksumsEnabled : Bool                      -- ReadControlFile ok ∧ DataChecksumsEnabled
   base : Option (List (Bytes × BaseEntry))     -- none: `<dataDir>/base` cannot be read
+  global : Option (List (Bytes × DbEntry))     -- none: `<dataDir>/global` cannot be read (fixes 08)
+  tblspc : List (Bytes × SpcEntry)             -- entries of `<dataDir>/pg_tblspc` ([] when it cannot be read; fix 09)
 deriving Repr, Inhabited
 
 /-- byte-wise string order (Go's string `<`), as used by os.ReadDir's sort -/
@@ -141,24 +158,36 @@ def lastIndexByte (s : Bytes) (c : UInt8) : Option Nat :=
   let r := s.reverse
   if r.contains c then some (s.length - 1 - (r.takeWhile (· != c)).length) else none
 
-/-- the file-name filter of the scan (fix 07): `<uint32>` → segment 0, `<uint32>.<uint32>` → that
-segment, anything else is skipped -/
+/-- `"_fsm"`, `"_vm"`, `"_init"` -/
+def forkSuffixes : List Bytes := [[95, 102, 115, 109], [95, 118, 109], [95, 105, 110, 105, 116]]
+
+/-- strings.HasSuffix -/
+def nameEndsIn (s suf : Bytes) : Bool := suf.length ≤ s.length && s.drop (s.length - suf.length) == suf
+
+/-- `for _, fork := range {"_fsm","_vm","_init"} { if HasSuffix(base, fork) { base = TrimSuffix(base, fork); break } }` -/
+def stripFork (base : Bytes) : Bytes :=
+  match forkSuffixes.find? (nameEndsIn base) with
+  | some suf => base.take (base.length - suf.length)
+  | none => base
+
+/-- the file-name filter of the scan (fixes 07, 08): `<uint32>[_fsm|_vm|_init]` → segment 0,
+`<uint32>[_fsm|_vm|_init].<uint32>` → that segment, anything else is skipped -/
 def relFileSegment (name : Bytes) : Option Nat :=
   match lastIndexByte name 46 with
   | some dot =>
     match parseUint32 (name.drop (dot + 1)) with
     | none => none
-    | some seg => if (parseUint32 (name.take dot)).isSome then some seg else none
-  | none => if (parseUint32 name).isSome then some 0 else none
+    | some seg => if (parseUint32 (stripFork (name.take dot))).isSome then some seg else none
+  | none => if (parseUint32 (stripFork name)).isSome then some 0 else none
 
-/-- a scanned file: database directory name, file name, result -/
+/-- a scanned file: directory (path relative to the data directory), file name, result -/
 structure ScannedFile where
   db : Bytes
   name : Bytes
   result : FileChecksumResult
 deriving Repr, DecidableEq, Inhabited
 
-/-- the inner loop over the (sorted) entries of one database directory -/
+/-- `scanDir`: the loop over the (sorted) entries of one directory of relation files -/
 def scanDbFiles (ck : Bytes → Nat → Nat) (db : Bytes) : List (Bytes × DbEntry) → M (List ScannedFile)
   | [] => pure []
   | (name, e) :: rest =>
@@ -174,17 +203,53 @@ def scanDbFiles (ck : Bytes → Nat → Nat) (db : Bytes) : List (Bytes × DbEnt
           let more ← scanDbFiles ck db rest
           pure (⟨db, name, r⟩ :: more)
 
-/-- the outer loop over the (sorted) entries of `base` -/
-def scanBase (ck : Bytes → Nat → Nat) : List (Bytes × BaseEntry) → M (List ScannedFile)
+/-- `filepath.Join(dir, name)` for clean relative components -/
+def joinPath (dir name : Bytes) : Bytes := dir ++ [47] ++ name
+
+/-- the loop over the (sorted) entries of a directory of database directories (`base`, or
+`pg_tblspc/<spcoid>/PG_…`): every real directory whose name is a uint32 is scanned -/
+def scanBase (ck : Bytes → Nat → Nat) (dir : Bytes) : List (Bytes × BaseEntry) → M (List ScannedFile)
   | [] => pure []
   | (name, e) :: rest =>
     match e with
-    | .file => scanBase ck rest
+    | .file => scanBase ck dir rest
     | .dir entries =>
-      if (parseUint32 name).isNone then scanBase ck rest
+      if (parseUint32 name).isNone then scanBase ck dir rest
       else do
-        let fs ← scanDbFiles ck name (sortByName entries)
-        let more ← scanBase ck rest
+        let fs ← scanDbFiles ck (joinPath dir name) (sortByName entries)
+        let more ← scanBase ck dir rest
+        pure (fs ++ more)
+
+/-- `"PG_"` -/
+def pgPrefix : Bytes := [80, 71, 95]
+
+/-- the loop over the (sorted) entries of one tablespace directory: real directories named `PG_…` -/
+def scanVers (ck : Bytes → Nat → Nat) (spcPath : Bytes) : List (Bytes × VerEntry) → M (List ScannedFile)
+  | [] => pure []
+  | (name, e) :: rest =>
+    match e with
+    | .file => scanVers ck spcPath rest
+    | .dir dbs =>
+      if name.take 3 != pgPrefix then scanVers ck spcPath rest
+      else do
+        let fs ← scanBase ck (joinPath spcPath name) (sortByName dbs)
+        let more ← scanVers ck spcPath rest
+        pure (fs ++ more)
+
+/-- `"pg_tblspc"` -/
+def tblspcName : Bytes := [112, 103, 95, 116, 98, 108, 115, 112, 99]
+
+/-- the loop over the (sorted) entries of `pg_tblspc`: names that are a uint32 and can be listed -/
+def scanSpcs (ck : Bytes → Nat → Nat) : List (Bytes × SpcEntry) → M (List ScannedFile)
+  | [] => pure []
+  | (name, e) :: rest =>
+    if (parseUint32 name).isNone then scanSpcs ck rest
+    else
+      match e with
+      | .file => scanSpcs ck rest
+      | .dir vers => do
+        let fs ← scanVers ck (joinPath tblspcName name) (sortByName vers)
+        let more ← scanSpcs ck rest
         pure (fs ++ more)
 
 structure DataDirChecksumResult where
@@ -204,11 +269,19 @@ def summarize (enabled : Bool) (scanned : List ScannedFile) : DataDirChecksumRes
     invalidBlocks := (scanned.map (·.result.invalidBlocks)).sum,
     files := scanned.filter fun f => !f.result.errors.isEmpty }
 
+/-- `"global"`, `"base"` -/
+def globalName : Bytes := [103, 108, 111, 98, 97, 108]
+def baseName : Bytes := [98, 97, 115, 101]
+
 def verifyDataDirChecksums (ck : Bytes → Nat → Nat) (fs : DataDirFS) : M (R DataDirChecksumResult) :=
   match fs.base with
   | none => pure (.error .noBase)
   | some entries => do
-    let scanned ← scanBase ck (sortByName entries)
-    pure (.ok (summarize fs.checksumsEnabled scanned))
+    let g ← match fs.global with
+      | none => pure []
+      | some es => scanDbFiles ck globalName (sortByName es)
+    let scanned ← scanBase ck baseName (sortByName entries)
+    let t ← scanSpcs ck (sortByName fs.tblspc)
+    pure (.ok (summarize fs.checksumsEnabled (g ++ scanned ++ t)))
 
 end PgVerif.Model
